@@ -10,7 +10,7 @@ from harness.driver import Driver, DriverError
 
 PID = 'C01'
 THEOREMS = ['PyDBML.C02.parseDoc_elems', 'PyDBML.C02.DocSpec.build', 'PyDBML.C02.enumRule_okP', 'PyDBML.C02.stickyNoteRule_okP', 'PyDBML.C02.tableGroupRule_okP', 'PyDBML.C02.ColForm.parseDoc_tables_refs', 'PyDBML.C02.ColForm.build_tables_refs', 'PyDBML.C02.ColForm.buildRef_ok', 'PyDBML.C02.tableColumn_settings', 'PyDBML.C02.ColForm.parseDoc_table', 'PyDBML.C02.ColForm.build_table', 'PyDBML.C02.parseDoc_tables_refs', 'PyDBML.C02.build_tables_refs', 'PyDBML.C02.buildRef_plain', 'PyDBML.C02.parseDoc_tables', 'PyDBML.C02.parseDoc_enum', 'PyDBML.C02.build_enum', 'PyDBML.C02.build_tables', 'PyDBML.C02.many_tables', 'PyDBML.C02.parseDoc_table', 'PyDBML.C02.parseDoc_sticky', 'PyDBML.C02.build_table']
-MODULES = ['PyDBMLProofs.Props.C02Sticky', 'PyDBMLProofs.Props.C02Table', 'PyDBMLProofs.Props.C02Tables', 'PyDBMLProofs.Props.C02Enum', 'PyDBMLProofs.Props.C02Refs', 'PyDBMLProofs.Props.C02Form', 'PyDBMLProofs.Props.C02Flags', 'PyDBMLProofs.Props.C02Comment', 'PyDBMLProofs.Props.C02FormTables', 'PyDBMLProofs.Props.C02FormRefs', 'PyDBMLProofs.Props.C02FlagsTables', 'PyDBMLProofs.Props.C02Doc', 'PyDBMLProofs.Props.C02DocMore', 'PyDBMLProofs.Props.C02Group', 'PyDBMLProofs.Props.C02Document']
+MODULES = ['PyDBMLProofs.Props.C02Sticky', 'PyDBMLProofs.Props.C02Table', 'PyDBMLProofs.Props.C02Tables', 'PyDBMLProofs.Props.C02Enum', 'PyDBMLProofs.Props.C02Refs', 'PyDBMLProofs.Props.C02Form', 'PyDBMLProofs.Props.C02Flags', 'PyDBMLProofs.Props.C02Comment', 'PyDBMLProofs.Props.C02FormTables', 'PyDBMLProofs.Props.C02FormRefs', 'PyDBMLProofs.Props.C02FlagsTables', 'PyDBMLProofs.Props.C02Doc', 'PyDBMLProofs.Props.C02DocMore', 'PyDBMLProofs.Props.C02Group', 'PyDBMLProofs.Props.C02Inline', 'PyDBMLProofs.Props.C02Document']
 
 
 def mk_case(seed, varied=True, max_tables=4):
